@@ -15,6 +15,8 @@ struct Cfg {
     ttl: u64,
     flood: bool,
     scoring: bool,
+    /// `connection_handler_queue_len`: capacity of every peer's non-priority send queue
+    cap: usize,
 }
 
 #[derive(Clone, Debug)]
@@ -28,6 +30,10 @@ enum Op {
     Score(usize, i64),
     Publish(usize, u64),
     Hb(u64),
+    /// stop emptying the peer's handler queue after every op
+    Hold(usize),
+    /// empty the peer's handler queue now and after every op again
+    Release(usize),
 }
 
 fn build(cfg: &Cfg) -> Node {
@@ -38,6 +44,10 @@ fn build(cfg: &Cfg) -> Node {
         .mesh_outbound_min(0)
         .fanout_ttl(Duration::from_nanos(cfg.ttl))
         .flood_publish(cfg.flood)
+        // no IHAVE gossip: `RpcOut::Publish` is the only traffic of the bounded non-priority queue
+        .gossip_lazy(0)
+        .gossip_factor(0.0)
+        .connection_handler_queue_len(cfg.cap)
         .heartbeat_interval(Duration::from_secs(1));
     let config = b.build().expect("config");
     let th = cfg.scoring.then(|| PeerScoreThresholds {
@@ -57,12 +67,14 @@ struct Run {
     counter: u64,
     /// publishes that went through the fanout branch
     fan_pubs: usize,
+    /// peers whose queue is not being emptied
+    held: std::collections::BTreeSet<usize>,
 }
 
 impl Run {
     fn new(cfg: Cfg) -> Run {
         crate::set_now(0);
-        Run { node: build(&cfg), cfg, lines: vec![], counter: 0, fan_pubs: 0 }
+        Run { node: build(&cfg), cfg, lines: vec![], counter: 0, fan_pubs: 0, held: Default::default() }
     }
 
     fn low(&self) -> Vec<usize> {
@@ -94,10 +106,13 @@ impl Run {
         self.node.map_tok(|t| self.node.fanout(t))
     }
 
-    /// drain every handler queue; returns the peers that were sent a `Publish`
+    /// drain the handler queues of the peers that are not held; returns those that were sent a `Publish`
     fn drain(&mut self, before: &[usize]) -> Vec<usize> {
         let mut got = vec![];
         for &p in before {
+            if self.held.contains(&p) {
+                continue;
+            }
             if self.node.drain_rpcs(p).iter().any(|s| matches!(s, Sent::Publish { .. })) {
                 got.push(p);
             }
@@ -112,6 +127,7 @@ impl Run {
         let low = self.low();
         let mut res = "ok".to_string();
         let mut rcpt = "*".to_string();
+        let mut q = "*".to_string();
         let op_line;
         match op {
             Op::Connect(p, g) => {
@@ -170,13 +186,32 @@ impl Run {
                     res = match r {
                         Ok(_) => "ok".into(),
                         Err(PublishError::NoPeersSubscribedToTopic) => "nopeers".into(),
+                        Err(PublishError::AllQueuesFull(n)) => format!("full:{n}"),
                         Err(e) => format!("err:{e:?}").replace(' ', "_"),
                     };
                     rcpt = comma(&got);
                 } else {
+                    // recipients of mesh / flood publishes are not modelled: every queue is emptied
                     res = "*".into();
+                    for &p in &before {
+                        self.node.drain_rpcs(p);
+                    }
                 }
-                op_line = format!("publish {} {} {} {}", t, now, comma(&low), comma(&got));
+                let fa = match self.node.fanout(*t) {
+                    None => "x".to_string(),
+                    Some(l) => dot(&l),
+                };
+                op_line = format!("publish {} {} {} {}", t, now, comma(&low), fa);
+            }
+            Op::Hold(p) => {
+                self.held.insert(*p);
+                op_line = format!("hold {p}");
+            }
+            Op::Release(p) => {
+                self.held.remove(p);
+                let n = self.node.drain_rpcs(*p).iter().filter(|s| matches!(s, Sent::Publish { .. })).count();
+                q = n.to_string();
+                op_line = format!("release {p}");
             }
             Op::Hb(now) => {
                 crate::set_now(*now);
@@ -189,10 +224,11 @@ impl Run {
         self.drain(&after);
         self.lines.push(format!("op {op_line}"));
         self.lines.push(format!(
-            "impl {} fan={} rcpt={} peers={} sub={}",
+            "impl {} fan={} rcpt={} q={} peers={} sub={}",
             res,
             self.fan_tok(),
             rcpt,
+            q,
             self.peers_tok(),
             comma(&self.subscribed())
         ));
@@ -216,13 +252,14 @@ fn emit(out: &mut hcore::Out, idx: u64, class: &str, cfg: &Cfg, ops: &[Op]) {
     out.case(
         idx,
         &format!(
-            "{} nt={} mesh_n={} ttl={} flood={} scoring={}",
+            "{} nt={} mesh_n={} ttl={} flood={} scoring={} cap={}",
             class,
             (fan_pubs >= 2) as u8,
             cfg.mesh_n,
             cfg.ttl,
             cfg.flood as u8,
-            cfg.scoring as u8
+            cfg.scoring as u8,
+            cfg.cap
         ),
     );
     for l in lines {
@@ -234,7 +271,7 @@ fn emit(out: &mut hcore::Out, idx: u64, class: &str, cfg: &Cfg, ops: &[Op]) {
 const SEC: u64 = 1_000_000_000;
 
 fn scripted() -> Vec<(&'static str, Cfg, Vec<Op>)> {
-    let base = Cfg { mesh_n: 2, ttl: 60 * SEC, flood: false, scoring: false };
+    let base = Cfg { mesh_n: 2, ttl: 60 * SEC, flood: false, scoring: false, cap: 5000 };
     let mut v = vec![];
     // DESIGN §8 row 11: fanout {A}, candidates {A,B}, mesh_n = 2
     v.push((
@@ -298,6 +335,69 @@ fn scripted() -> Vec<(&'static str, Cfg, Vec<Op>)> {
             Op::Publish(1, 11 + 60 * SEC),
         ],
     ));
+    // a fanout peer whose send queue is full stays in the fanout (queue capacity 1); then every
+    // recipient's queue is full: `AllQueuesFull`, fanout untouched
+    v.push((
+        "queue-full",
+        Cfg { cap: 1, ..base.clone() },
+        vec![
+            Op::Connect(0, true),
+            Op::Connect(1, true),
+            Op::Connect(2, true),
+            Op::Subs(0, vec![(true, 0)]),
+            Op::Subs(1, vec![(true, 0)]),
+            Op::Publish(0, 0),
+            Op::Hold(0),
+            Op::Publish(0, 1),
+            Op::Publish(0, 2),
+            Op::Publish(0, 3),
+            Op::Hold(1),
+            Op::Publish(0, 4),
+            Op::Publish(0, 5),
+            Op::Subs(2, vec![(true, 0)]),
+            Op::Publish(0, 6),
+            Op::Release(0),
+            Op::Publish(0, 7),
+            Op::Hb(8),
+            Op::Publish(0, 9),
+            Op::Release(1),
+            Op::Release(0),
+        ],
+    ));
+    // capacity 2, one fanout slot still free when the first peer backs up; capacity 0: nothing is ever sent
+    v.push((
+        "queue-two",
+        Cfg { cap: 2, mesh_n: 3, ..base.clone() },
+        vec![
+            Op::Connect(0, true),
+            Op::Subs(0, vec![(true, 1)]),
+            Op::Hold(0),
+            Op::Publish(1, 0),
+            Op::Publish(1, 1),
+            Op::Publish(1, 2),
+            Op::Connect(1, true),
+            Op::Subs(1, vec![(true, 1)]),
+            Op::Publish(1, 3),
+            Op::Disconnect(0),
+            Op::Connect(0, true),
+            Op::Subs(0, vec![(true, 1)]),
+            Op::Publish(1, 4),
+            Op::Release(0),
+        ],
+    ));
+    v.push((
+        "queue-zero",
+        Cfg { cap: 0, ..base.clone() },
+        vec![
+            Op::Connect(0, true),
+            Op::Subs(0, vec![(true, 0)]),
+            Op::Publish(0, 0),
+            Op::Publish(0, 1),
+            Op::Connect(1, false),
+            Op::Subs(1, vec![(true, 0)]),
+            Op::Publish(0, 2),
+        ],
+    ));
     // a fanout peer whose score drops below the publish threshold is not a candidate any more
     v.push((
         "low-score",
@@ -330,7 +430,9 @@ fn random_case(rng: &mut hcore::Rng) -> (Cfg, Vec<Op>) {
         ttl: *rng.pick(&[60 * SEC, 5 * SEC, SEC]),
         flood: rng.chance(1, 12),
         scoring: rng.chance(1, 3),
+        cap: if rng.chance(2, 5) { if rng.chance(1, 12) { 0 } else { 1 + rng.usize(3) } } else { 5000 },
     };
+    let small_q = cfg.cap < 5000;
     let npeers = 1 + rng.usize(6);
     let ntopics = 1 + rng.usize(3);
     let nops = 10 + rng.usize(60);
@@ -343,6 +445,9 @@ fn random_case(rng: &mut hcore::Rng) -> (Cfg, Vec<Op>) {
         let t = if rng.chance(2, 3) { hot } else { rng.usize(ntopics) };
         let p = rng.usize(npeers);
         let k = rng.below(100);
+        if small_q && rng.chance(1, 7) {
+            ops.push(if rng.chance(3, 5) { Op::Hold(p) } else { Op::Release(p) });
+        }
         let op = if k < 14 {
             connected[p] = true;
             Op::Connect(p, !rng.chance(1, 6))
@@ -382,6 +487,10 @@ fn random_case(rng: &mut hcore::Rng) -> (Cfg, Vec<Op>) {
         };
         ops.push(op);
     }
+    // look into every queue that is still held
+    for p in 0..npeers {
+        ops.push(Op::Release(p));
+    }
     (cfg, ops)
 }
 
@@ -391,7 +500,13 @@ fn parse_cfg(h: &[String]) -> Cfg {
             .find_map(|t| t.strip_prefix(&format!("{k}=")).map(|v| v.parse().expect("number")))
             .unwrap_or(d)
     };
-    Cfg { mesh_n: get("mesh_n", 2) as usize, ttl: get("ttl", 60 * SEC), flood: get("flood", 0) == 1, scoring: get("scoring", 0) == 1 }
+    Cfg {
+        mesh_n: get("mesh_n", 2) as usize,
+        ttl: get("ttl", 60 * SEC),
+        flood: get("flood", 0) == 1,
+        scoring: get("scoring", 0) == 1,
+        cap: get("cap", 5000) as usize,
+    }
 }
 
 fn parse_op(t: &[String]) -> Option<Op> {
@@ -413,6 +528,8 @@ fn parse_op(t: &[String]) -> Option<Op> {
         "score" => Op::Score(n(1), t[2].parse().expect("score")),
         "publish" => Op::Publish(n(1), t[2].parse().expect("now")),
         "hb" => Op::Hb(t[1].parse().expect("now")),
+        "hold" => Op::Hold(n(1)),
+        "release" => Op::Release(n(1)),
         _ => return None,
     })
 }
